@@ -16,7 +16,7 @@ import re
 
 from .. import hailenv
 from ..framework import Prop
-from .c35 import parse_sexp
+from .c35 import parse_sexp, ensure_reader_built
 
 # --------------------------------------------------------------------------------------------------------------------
 # types in `_parsable_string` syntax  <->  tuples  ('Int32',) ('Array', t) ('Struct', ((n, t), …)) ('Tuple', (t, …)) ('Dict', k, v)
@@ -1005,6 +1005,7 @@ class C36(Prop):
 
     # ---- set-up ---------------------------------------------------------------------------------------------------
     def setup(self, repo):
+        ensure_reader_built()
         self.hl = hailenv.init(repo)
         import hail.expr.expressions.base_expression as be
         self.be = be
@@ -1640,6 +1641,21 @@ class C36(Prop):
         return {'kind': 'tunion', 'unify': unify, 'tables': tables}
 
     def gen_join(self, rng):
+        if rng.random() < 0.6:
+            # the left table keyed by an int32 field that is NOT the leading field of its row (the joined row starts with the key)
+            named = [['j0', 'i32', 'idx']] + [[f'j{i}', rng.choice(FIELD_TYPES), 'idx'] for i in range(1, rng.choice([1, 2, 3]))]
+            rng.shuffle(named)
+            left = [['annotate', named]]
+            if rng.random() < 0.4:
+                left.append(['annotate_globals', [['jg', rng.choice(FIELD_TYPES), None]]])
+            left.append(['key_by', ['j0']])
+            for _ in range(rng.choice([0, 0, 1, 2])):
+                left.append(rng.choice([['filter', 'j0'], ['annotate', [[f'k{rng.randint(0, 3)}', rng.choice(FIELD_TYPES), 'j0']]],
+                                        ['drop', ['idx']]]))
+            if sum(1 for o in left if o == ['drop', ['idx']]) > 1:
+                left = [o for o in left if o != ['drop', ['idx']]] + [['drop', ['idx']]]
+            right = self.gen_table(rng, 'r', ['annotate', 'annotate', 'annotate_globals', 'filter', 'explode'])['ops']
+            return {'kind': 'tjoin', 'left': left, 'right': right}
         left = self.gen_table(rng, 'f', ['annotate', 'annotate', 'annotate_globals', 'key_by', 'filter', 'select', 'drop'])['ops']
         right = self.gen_table(rng, 'r', ['annotate', 'annotate', 'annotate_globals', 'filter', 'explode'])['ops']     # stays keyed by idx: no name collisions
         return {'kind': 'tjoin', 'left': left, 'right': right}
@@ -1651,7 +1667,7 @@ class C36(Prop):
             if r < 0.1:
                 yield self.gen_union(rng)
                 continue
-            if r < 0.13:
+            if r < 0.14:
                 yield self.gen_join(rng)
                 continue
             if r < 0.25:
